@@ -370,12 +370,15 @@ class _Rename(ast.NodeTransformer):
 
 def clause_e(ctx: Context, idx) -> None:
     """The index functions are sums of binomial coefficients computed by `comb` / `arr_comb` in 64-bit integers (C06a replaces arr_comb by
-    comb; this clause is what justifies it).  Loop invariant, decided with sympy: the accumulator starts at 1 = C(n, 0) and one iteration maps
-    C(n, i) to C(n, i + 1) - so the floor division inside the loop is exact and no intermediate exceeds n * C(n, k).  A version that multiplies
-    the whole falling factorial and divides once at the end returns the same numbers only while k! * C(n, k) fits into 64 bits (it fails from
-    17 modes on), although every result is within the property's range."""
-    ctx.rule("C06e", "comb / arr_comb keep the invariant accumulator == C(n, i) through their loop (exact division inside the loop; intermediates are "
-                     "binomial coefficients) and return the accumulator itself")
+    comb; this clause is what justifies it).  Decided with sympy:
+      * loop invariant - the accumulator starts at 1 = C(n, 0) and one (executed) iteration maps C(n, i) to C(n, i + 1), so the floor
+        division inside the loop is exact and the intermediates are binomial coefficients;
+      * symmetric reduction - the number of executed iterations is min(k, n - k) (a scalar `k = min(k, n - k)` before the loop, or an
+        elementwise guard `i < minimum(k, n - k)` on the update), so no intermediate exceeds n times the *result*: without it the running
+        product runs through the central binomial coefficients and overflows 64 bits for arguments whose result is tiny (C(64, 62));
+      * the accumulator itself is returned (possibly masked to 0 where n < k)."""
+    ctx.rule("C06e", "comb / arr_comb keep the invariant accumulator == C(n, i) through their loop (exact division inside the loop), run it "
+                     "min(k, n - k) times (symmetric reduction) and return the accumulator itself")
     mod = idx.module("piquasso._math.combinatorics")
     n_sym, i_sym = sp.Symbol("n", integer=True, nonnegative=True), sp.Symbol("i", integer=True, nonnegative=True)
     n_fn = 0
@@ -394,11 +397,30 @@ def clause_e(ctx: Context, idx) -> None:
         acc_names = {t.id for st in loop.body for t in ([st.target] if isinstance(st, ast.AugAssign) else (st.targets if isinstance(st, ast.Assign) else []))
                      if isinstance(t, ast.Name)}
         ret = rets[-1].value
-        npar = fn.params()[0]
+        # `np.where(n < k, 0, acc)`: the accumulator masked where the coefficient vanishes
+        if isinstance(ret, ast.Call) and (dotted(ret.func) or "").split(".")[-1] == "where" and len(ret.args) == 3 \
+                and isinstance(ret.args[1], ast.Constant) and ret.args[1].value == 0:
+            ret = ret.args[2]
+        params = fn.params()
+        npar, kpar = params[0], params[1]
         ivar = loop.target.id if isinstance(loop.target, ast.Name) else None
+
+        def is_min_k_nk(e: ast.AST) -> bool:
+            """min(k, n - k) / np.minimum(k, n - k) / np.minimum(k, np.abs(n - k))"""
+            if isinstance(e, ast.Call) and (dotted(e.func) or "").split(".")[-1] in ("min", "minimum") and len(e.args) == 2:
+                a, b = e.args
+                for x, y in ((a, b), (b, a)):
+                    if isinstance(y, ast.Call) and (dotted(y.func) or "").split(".")[-1] in ("abs", "absolute") and y.args:
+                        y = y.args[0]
+                    if norm(x) == kpar and norm(y).replace(" ", "") == f"{npar}-{kpar}":
+                        return True
+            return False
+
+        guard_name = None
         if not (isinstance(ret, ast.Name) and ret.id in acc_names) or ivar is None:
             ok = False
             why = f"returns `{norm(ret)}`, not the loop's accumulator"
+            reduced = True
         else:
             acc = ret.id
             env: Dict[str, sp.Expr] = {npar: n_sym, ivar: i_sym, acc: sp.binomial(n_sym, i_sym)}
@@ -423,20 +445,46 @@ def clause_e(ctx: Context, idx) -> None:
                 raise AnalysisError(f"C06e: `{norm(e)[:40]}` in the loop of {name} is outside the integer-arithmetic fragment (undecided)")
 
             for st in loop.body:
+                val = None
+                tgt = None
                 if isinstance(st, ast.AugAssign) and isinstance(st.target, ast.Name):
-                    env[st.target.id] = ev(ast.BinOp(left=ast.Name(st.target.id, ast.Load()), op=st.op, right=st.value))
+                    tgt, val = st.target.id, ast.BinOp(left=ast.Name(st.target.id, ast.Load()), op=st.op, right=st.value)
                 elif isinstance(st, ast.Assign) and len(st.targets) == 1 and isinstance(st.targets[0], ast.Name):
-                    env[st.targets[0].id] = ev(st.value)
+                    tgt, val = st.targets[0].id, st.value
                 else:
                     raise AnalysisError(f"C06e: statement `{norm(st)[:50]}` in the loop of {name} (undecided)")
+                # guarded update: acc = where(i < G, step, acc)
+                if isinstance(val, ast.Call) and (dotted(val.func) or "").split(".")[-1] == "where" and len(val.args) == 3 \
+                        and isinstance(val.args[2], ast.Name) and val.args[2].id == tgt:
+                    g = val.args[0]
+                    if isinstance(g, ast.Compare) and len(g.ops) == 1 and isinstance(g.ops[0], ast.Lt) and norm(g.left) == ivar \
+                            and isinstance(g.comparators[0], ast.Name):
+                        guard_name = g.comparators[0].id
+                    else:
+                        raise AnalysisError(f"C06e: guard `{norm(g)[:40]}` of the update in {name} (undecided)")
+                    val = val.args[1]
+                env[tgt] = ev(val)
             step = sp.simplify(sp.gammasimp(sp.combsimp(env[acc] / sp.binomial(n_sym, i_sym + 1))))
             inits = [a for a in fn.node.body if isinstance(a, ast.Assign) and isinstance(a.targets[0], ast.Name) and a.targets[0].id == acc]
             init_ok = bool(inits) and (norm(inits[0].value) == "1" or "ones" in norm(inits[0].value))
             ok = step == 1 and init_ok
             why = f"one iteration maps C(n, i) to {sp.simplify(env[acc])} (ratio to C(n, i + 1): {step}); initial value {'1' if init_ok else 'not 1'}"
+            # symmetric reduction
+            pre = [a for a in fn.node.body if isinstance(a, ast.Assign) and len(a.targets) == 1 and isinstance(a.targets[0], ast.Name)]
+            if guard_name is not None:
+                reduced = any(a.targets[0].id == guard_name and is_min_k_nk(a.value) for a in pre)
+            else:
+                reduced = any(a.targets[0].id == kpar and is_min_k_nk(a.value) and a.lineno < loop.lineno for a in pre)
         ctx.obligation("C06e", key, ok, f"{ctx.relpath(fn.file)}:{fn.line}", detail=why)
         if not ok:
             ctx.violation("C06e", key, fn.file, fn.line,
                           f"{name}: {why}; the intermediates are not binomial coefficients, so the 64-bit accumulator overflows for arguments whose "
                           f"result is well within range (from about 17 modes on) and the vectorised index disagrees with the enumeration", why[:120])
+        key2 = f"{fn.qualname}|symmetric reduction min(k, n - k)"
+        ctx.obligation("C06e", key2, reduced, f"{ctx.relpath(fn.file)}:{fn.line}")
+        if not reduced:
+            ctx.violation("C06e", key2, fn.file, loop.lineno,
+                          f"{name} runs its loop k times instead of min(k, n - k) times: the running product passes through the central binomial "
+                          f"coefficients and overflows 64 bits although the result is small (C(64, 62) = 2016 comes out as -304), so indices and "
+                          f"dimensions of bases with about 62 modes or more disagree with the enumeration", norm(loop).split(chr(10))[0])
     ctx.require_floor("C06e binomial accumulators", n_fn, 2)
